@@ -187,6 +187,90 @@ def parse_tla(text: str):
     return v
 
 
+_TOK = re.compile(r'\s*(?:(<<)|(>>)|(\{)|(\})|(\[)|(\])|(\()|(\))|(,)|(:>)|(@@)|(\|->)|(\.\.)|("(?:[^"\\]|\\.)*")|(-?\d+)|([A-Za-z_][A-Za-z0-9_]*))')
+_ESC = re.compile(r'\\(.)')
+_ESCMAP = {'n': '\n', 't': '\t', 'r': '\r', 'f': '\f'}
+
+
+def parse_tla_fast(text):
+    pos = 0
+    n = len(text)
+    toks = []
+    for m in _TOK.finditer(text):
+        if m.start() != pos:
+            break
+        pos = m.end()
+        toks.append((m.lastindex, m.group(m.lastindex)))
+    i = 0
+
+    def value():
+        nonlocal i
+        k, t = toks[i]
+        i += 1
+        if k == 1:      # <<
+            out = []
+            if toks[i][0] == 2:
+                i += 1
+                return ()
+            while True:
+                out.append(value())
+                k2 = toks[i][0]
+                i += 1
+                if k2 == 2:
+                    return tuple(out)
+        if k == 3:      # {
+            out = []
+            if toks[i][0] == 4:
+                i += 1
+                return frozenset()
+            while True:
+                out.append(value())
+                k2 = toks[i][0]
+                i += 1
+                if k2 == 4:
+                    return frozenset(out)
+        if k == 5:      # [ record
+            out = HDict()
+            while True:
+                key = toks[i][1]
+                i += 2          # name, |->
+                out[key] = value()
+                k2 = toks[i][0]
+                i += 1
+                if k2 == 6:
+                    return out
+        if k == 7:      # ( function
+            out = HDict()
+            while True:
+                kk = value()
+                i += 1          # :>
+                out[kk] = value()
+                k2 = toks[i][0]
+                i += 1
+                if k2 == 8:
+                    return out
+        if k == 14:
+            s = t[1:-1]
+            if '\\' in s:
+                s = _ESC.sub(lambda m: _ESCMAP.get(m.group(1), m.group(1)), s)
+            return s
+        if k == 15:
+            a = int(t)
+            if i < len(toks) and toks[i][0] == 13:
+                i += 1
+                b = value()
+                return frozenset(range(a, b + 1))
+            return a
+        if k == 16:
+            if t == 'TRUE':
+                return True
+            if t == 'FALSE':
+                return False
+            return t
+        raise ValueError(f'unexpected token {t!r}')
+    return value()
+
+
 def fun_to_list(f, n=None):
     """A TLC function with domain 1..n printed as <<...>> (tuple) or (1 :> a @@ ...)."""
     if isinstance(f, tuple):
@@ -220,44 +304,32 @@ def tla_str(v) -> str:
 
 
 def extract_tuples(stdout: str, tag: str):
-    """Yield the parsed tuples <<"TAG", ...>> printed by PrintT.  16 workers may interleave
-    lines, so every occurrence of the opening token is matched by bracket counting."""
-    needle = re.compile(r'<<\s*"' + re.escape(tag) + '"')
-    pos = 0
-    n = len(stdout)
-    while True:
-        m = needle.search(stdout, pos)
-        if m is None:
-            return
-        i = m.start()
-        depth = 0
-        j = i
-        in_str = False
-        while j < n:
-            ch = stdout[j]
-            if in_str:
-                if ch == '\\':
-                    j += 1
-                elif ch == '"':
-                    in_str = False
-            else:
-                if ch == '"':
-                    in_str = True
-                elif stdout.startswith('<<', j):
-                    depth += 1
-                    j += 1
-                elif stdout.startswith('>>', j):
-                    depth -= 1
-                    j += 1
-                    if depth == 0:
-                        break
-            j += 1
-        text = stdout[i:j + 1]
-        pos = j + 1
-        try:
-            yield parse_tla(text)
-        except Exception as e:  # interleaved garbage: machinery failure, not a verdict
-            raise MachineryError(f'unparsable TLC output near {text[:120]!r}: {e}')
+    """Yield the parsed tuples <<"TAG", ...>> printed by PrintT.  TLC prints one value per
+    PrintT call: either on one line, or pretty-printed over several lines of which all but the
+    first are indented.  A record that does not parse (e.g. interleaved output) falls back to
+    bracket matching and finally raises MachineryError - never a silent loss."""
+    head = re.compile(r'^<<\s*"' + re.escape(tag) + '"')
+    lines = stdout.split('\n')
+    i, n = 0, len(lines)
+    while i < n:
+        ln = lines[i]
+        if ln.startswith('<<') and head.match(ln):
+            j = i + 1
+            while j < n and lines[j][:1] in (' ', '\t'):
+                j += 1
+            text = ln if j == i + 1 else '\n'.join(lines[i:j])
+            i = j
+            try:
+                yield parse_tla_fast(text)
+                continue
+            except Exception:
+                pass
+            try:
+                yield parse_tla(text)
+            except Exception as e:
+                raise MachineryError(f'unparsable TLC output near {text[:160]!r}: {e}')
+        else:
+            i += 1
 
 
 # --------------------------------------------------------------------------- TLC
